@@ -497,6 +497,29 @@ static ares_bool_t ai_has_ipv4(struct ares_addrinfo *ai)
   return ARES_FALSE;
 }
 
+/* Drop any address that is not of the requested family.  An answer to an AAAA
+ * question may also carry A records (and vice versa); when a single family was
+ * asked for those must not be returned. */
+static void hquery_filter_family(struct host_query *hquery)
+{
+  struct ares_addrinfo_node **pnode = &hquery->ai->nodes;
+
+  if (hquery->hints.ai_family == AF_UNSPEC) {
+    return;
+  }
+
+  while (*pnode != NULL) {
+    struct ares_addrinfo_node *node = *pnode;
+    if (node->ai_family == hquery->hints.ai_family) {
+      pnode = &node->ai_next;
+      continue;
+    }
+    *pnode        = node->ai_next;
+    node->ai_next = NULL;
+    ares_freeaddrinfo_nodes(node);
+  }
+}
+
 static void host_callback(void *arg, ares_status_t status, size_t timeouts,
                           const ares_dns_record_t *dnsrec)
 {
@@ -511,6 +534,13 @@ static void host_callback(void *arg, ares_status_t status, size_t timeouts,
     } else {
       addinfostatus =
         ares_parse_into_addrinfo(dnsrec, ARES_TRUE, hquery->port, hquery->ai);
+      if (addinfostatus == ARES_SUCCESS) {
+        hquery_filter_family(hquery);
+        if (hquery->ai->nodes == NULL) {
+          /* Nothing of the requested family in there */
+          addinfostatus = ARES_ENODATA;
+        }
+      }
     }
 
     /* We sent out ipv4 and ipv6 requests simultaneously.  If we got a
